@@ -220,6 +220,15 @@ func runSign(c SCase) (n cnt, err error) {
 	if err != nil {
 		return n, fmt.Errorf("NewSigner(%s): %v", c.Alg, err)
 	}
+	if c.Fill%3 == 0 {
+		// one Signer signs several payloads
+		if first, e2 := signer.Sign(rtmpx.Fill(c.Size+5, c.Fill+13)); e2 != nil {
+			return n, fmt.Errorf("first Sign of a reused signer: %v", e2)
+		} else if out, e3 := first.Verify(vk); e3 != nil || len(out) != c.Size+5 {
+			return n, fmt.Errorf("first object of a reused signer: %d bytes, err %v", len(out), e3)
+		}
+		n.evals++
+	}
 	obj, err := signer.Sign(payload)
 	if err != nil {
 		return n, fmt.Errorf("Sign: %v", err)
@@ -402,6 +411,15 @@ func runEncrypt(c ECase) (n cnt, err error) {
 	}
 	if c.Zip {
 		e.SetCompression(jose.DEFLATE)
+	}
+	if c.Fill%3 == 0 {
+		// one Encrypter encrypts several payloads: nothing of an earlier call may leak into the next
+		if first, e2 := e.EncryptWithAuthData(rtmpx.Fill(c.Size+3, c.Fill+11), []byte("earlier aad")); e2 != nil {
+			return n, fmt.Errorf("first Encrypt of a reused encrypter: %v", e2)
+		} else if out, e3 := first.Decrypt(dk); e3 != nil || len(out) != c.Size+3 {
+			return n, fmt.Errorf("first object of a reused encrypter: %d bytes, err %v", len(out), e3)
+		}
+		n.evals++
 	}
 	var aad []byte
 	var obj *jose.JsonWebEncryption
